@@ -3,21 +3,26 @@
 use super::common::*;
 use crate::guard::{observe, Obs};
 use crate::json::J;
-use crate::lexgen::{self, LexGen};
+use crate::lexgen::{self, LexGen, Vocab};
 use crate::names::*;
 use crate::Ctx;
 use narsese::lexical::{Narsese as LexNarsese, Sentence as LexSentence, Task as LexTask, Term as LexTerm};
 
 pub fn failure(f: Fmt, x: &LexNarsese) -> Option<String> {
-    let s = match observe(|| f.l().format_narsese(x)) {
+    failure_in(f.l(), x)
+}
+
+/// ... with the format instance given explicitly (the static one, or a freshly created one)
+pub fn failure_in(l: &narsese::conversion::string::impl_lexical::NarseseFormat, x: &LexNarsese) -> Option<String> {
+    let s = match observe(|| l.format_narsese(x)) {
         Obs::Ret(s) => s,
         Obs::Panic(p) => return Some(format!("format_narsese panicked: {}", p)),
     };
     // the specific entry points agree
     let alt = observe(|| match x {
-        LexNarsese::Term(t) => (f.l().format_term(t), f.l().format(t)),
-        LexNarsese::Sentence(t) => (f.l().format_sentence(t), f.l().format(t)),
-        LexNarsese::Task(t) => (f.l().format_task(t), f.l().format(t)),
+        LexNarsese::Term(t) => (l.format_term(t), l.format(t)),
+        LexNarsese::Sentence(t) => (l.format_sentence(t), l.format(t)),
+        LexNarsese::Task(t) => (l.format_task(t), l.format(t)),
     });
     if let Obs::Ret((a, b)) = &alt {
         if *a != s || *b != s {
@@ -25,7 +30,7 @@ pub fn failure(f: Fmt, x: &LexNarsese) -> Option<String> {
         }
     }
     let want = lexgen::lex_canon(x);
-    match observe(|| f.l().parse(&s).map(|v| lexgen::lex_canon(&v)).map_err(|e| e.to_string())) {
+    match observe(|| l.parse(&s).map(|v| lexgen::lex_canon(&v)).map_err(|e| e.to_string())) {
         Obs::Ret(Ok(c)) => {
             if c != want {
                 Some(format!("parse({:?}) = {} but the original is {}", s, c, want))
@@ -36,6 +41,24 @@ pub fn failure(f: Fmt, x: &LexNarsese) -> Option<String> {
         Obs::Ret(Err(e)) => Some(format!("parse({:?}) = Err({})", s, e)),
         Obs::Panic(p) => Some(format!("parse({:?}) panicked: {}", s, p)),
     }
+}
+
+/// the round trip through a format created a moment ago by the public factory, stored where a
+/// format of vocabulary `prev` was created, used and dropped just before
+pub fn recreated_failure(prev: Option<Fmt>, f: Fmt, x: &LexNarsese) -> Option<String> {
+    if let Some(p) = prev {
+        if last_recreated() != Some(p) {
+            let v = Vocab::of(p);
+            let a = LexTerm::new_atom("", "A");
+            let warm = LexTerm::new_statement(
+                v.copulas[0].clone(),
+                LexTerm::new_set(v.set_brackets[0].0.clone(), vec![a.clone(), a.clone()], v.set_brackets[0].1.clone()),
+                LexTerm::new_compound(v.connecters[0].clone(), vec![a.clone(), a.clone()]),
+            );
+            with_recreated_lex(p, |l| failure_in(l, &LexNarsese::Term(warm)));
+        }
+    }
+    with_recreated_lex(f, |l| failure_in(l, x)).map(|w| format!("with a format just created by the public factory (in the place of a dropped {} format): {}", prev.map_or("-", |p| p.name()), w))
 }
 
 // ---- shrinking of lexical values ----
@@ -211,6 +234,19 @@ fn check(ctx: &mut Ctx, f: Fmt, x: &LexNarsese, family: &str) {
             LexNarsese::Task(t) => lexgen::lex_depth(&t.sentence.term),
         })));
     }
+    if verdict.is_none() && ctx.report.evaluations % 4 == 0 {
+        // (the values of one format come in runs: make sure another vocabulary was in the slot before)
+        let g = ALL_FMT[(ctx.report.evaluations as usize / 4) % 3];
+        let prev = if g != f { Some(g) } else { last_recreated() };
+        ctx.report.bump("recreated-format-in-a-reused-slot");
+        if let Some(w) = recreated_failure(prev, f, x) {
+            ctx.report.violate(
+                format!("C02|recreated|{}|{}", f.name(), w.split(':').nth(1).unwrap_or("").chars().take(40).collect::<String>()),
+                format!("[{}] lexical round trip fails {}", f.name(), w),
+                J::obj().set("format", f.name()).set("lexical", lexgen::lex_json(x)).set("recreated_after", prev.map_or("-", |p| p.name())).set("why", w.clone()),
+            );
+        }
+    }
     if let Some(w) = verdict {
         let small = shrink(f, x);
         let w2 = failure(f, &small).unwrap_or(w);
@@ -318,6 +354,12 @@ pub fn run(ctx: &mut Ctx) {
 pub fn replay(ctx: &mut Ctx, d: &J) -> Option<()> {
     let f = fmt_of(d)?;
     let x = lexgen::lex_from_json(d.get("lexical")?)?;
+    if let Some(p) = jstr(d, "recreated_after") {
+        if let Some(w) = recreated_failure(Fmt::from_name(&p), f, &x) {
+            ctx.report.violate(format!("C02|recreated|{}", f.name()), w, d.clone());
+        }
+        return Some(());
+    }
     if let Some(w) = failure(f, &x) {
         ctx.report.violate(format!("C02|{}|{}", f.name(), lexgen::lex_canon(&x)), w, d.clone());
     }
